@@ -622,6 +622,9 @@ def _own_failures(case):
         call(lambda: _lib(name)(lib_from_rcell(bad).begin_parse()))
     s = traced(lc.begin_parse(), trace)
     ok, obj = call(_lib(name), s)
+    if ok:
+        from harness.core import describe
+        describe(obj, lc)                             # the caller logs what it got and the cell: nothing changes by that
     fails = []
     if not ok:
         fails.append(Fail(f'{tn}/{label}/raises/{exc_sig(obj)}', f'deserialize raised {obj!r}'))
